@@ -62,6 +62,7 @@ class Recorder:
         self.funcs = {}         # id(function) -> (number, function)
         self.resolved = {}      # code -> function number or None   (oracle: real get_func at the first call event)
         self.events = []        # Coq terms
+        self.last_yield = None  # (frame, value) of the most recent yield event, for `yield from` chains
         self.errors = []
 
     def fnum(self, frame):
@@ -134,8 +135,12 @@ class Recorder:
             if pend:
                 kind, _ = pend.pop(0)
                 sem = {"yield": "SYield", "await": "SAwait", "return": "SReturn", "raise": "SRaise"}[kind]
+            elif self.R.deleg.get(id(frame)) and self.last_yield is not None and self.last_yield[0] is not frame \
+                    and self.last_yield[1] is arg:
+                sem = "SYield"          # `yield from`: the delegate's value leaves through this frame too
             else:
                 sem = "SRaise"          # the frame is unwinding without having announced anything
+            self.last_yield = (frame, arg) if sem == "SYield" else None
             self.events.append(f"EvReturn {common.coq_N(f)} {c} {sem} {common.coq_str(op)} {self.ty(arg)}")
         else:
             self.events.append(f"EvOther {common.coq_N(f)} {c}")
